@@ -262,6 +262,12 @@ def run_case(case, policy):
             s.spawn('u%d' % u, updater, (u, scr))
         result = s.run(wall_timeout=20)
         cache1 = info.cache(node)
+    # every Node registers its logger tree with the logging manager for good; Logger.setLevel walks all registered
+    # loggers, so thousands of runs in one process would get slower and slower: forget this run's loggers
+    import logging
+    registry = logging.Logger.manager.loggerDict
+    for k in [k for k in registry if k == node.root.name or k.startswith(node.root.name + '.')]:
+        del registry[k]
     if result['aborted'] not in (None, 'deadlock'):
         raise RuntimeError(f'scheduler aborted ({result["aborted"]}) on case {json.dumps(case)}')
     setup = {'mods': [[info.mid(mn), list(range(len(info.pars[mn])))] for mn in info.mods],
